@@ -160,7 +160,7 @@ def rule_seq(repo: Repo, rep: Report) -> int:
         arms = [s.value]
         while any(isinstance(a_, ast.IfExp) for a_ in arms):
             arms = [b_ for a_ in arms for b_ in ((a_.body, a_.orelse) if isinstance(a_, ast.IfExp) else (a_,))]
-        copies = ("list(steps)", "[*steps]", "steps.copy()", "steps[:]", "list(steps or [])", "list(steps) if steps else []")
+        copies = ("list(steps)", "[*steps]", "steps.copy()", "steps[:]", "list(steps or [])", "list(steps or ())", "[]", "list()", "copy.copy(steps)", "[step for step in steps]", "[s for s in steps]")
         ok = all(any(match(a_, c_) is not None for c_ in copies) for a_ in arms)
         aliased = [a_ for a_ in arms if isinstance(a_, ast.Name) and a_.id == "steps"]
         vt = unparse(s.value)
